@@ -22,11 +22,15 @@
 //   PW id d pwd n           password-protected PEM with pwd, round trip, then n derived wrong passwords
 //                           -> ok <roundtrip 0/1> <wrong tried> <wrong rejected> <wrong accepted with the same key>
 //   LD id loader ci ki cj kj cdesc kdesc cdesc2 kdesc2   key-pair loaders on material ci/ki (and cj/kj) -> ok 0/1
+//   LP id loader certfile keyfile [certfile2 keyfile2]   loaders on composed PEM input; a file is a comma list of blocks
+//                           LABEL/content/ref (LABEL with _ for space; content: cert=<cdesc> p1rsa=<n> p8rsa=<n> p8ec=<cu:x:y>
+//                           p8sm2=<x:y> p8other sec1 enc junk; ref: how the driver rebuilds the bytes), "-" = empty file -> ok 0/1
 package main
 
 import (
 	"bytes"
 	"crypto/ecdsa"
+	"crypto/ed25519"
 	"crypto/elliptic"
 	"crypto/rsa"
 	stdx509 "crypto/x509"
@@ -95,6 +99,26 @@ func certFile(name string) []byte {
 type material struct {
 	certPEM, keyPEM []byte
 	cdesc, kdesc    string
+}
+
+// content descriptor of the key block of a material, for LP cases
+func (m material) kcontent() string {
+	blk, _ := pem.Decode(m.keyPEM)
+	f := strings.SplitN(m.kdesc, ":", 2)
+	switch f[0] {
+	case "sm2":
+		return "p8sm2=" + f[1]
+	case "ecdsa":
+		return "p8ec=" + f[1]
+	case "rsa":
+		if blk != nil {
+			if _, err := stdx509.ParsePKCS1PrivateKey(blk.Bytes); err == nil {
+				return "p1rsa=" + f[1]
+			}
+		}
+		return "p8rsa=" + f[1]
+	}
+	return "junk"
 }
 
 var materials []material
@@ -202,6 +226,17 @@ func buildMaterials() {
 	}
 	ekder, err := stdx509.MarshalPKCS8PrivateKey(ek)
 	if err != nil {
+		panic(err)
+	}
+	lpExtra.ecKey = ek
+	if lpExtra.sec1, err = stdx509.MarshalECPrivateKey(ek); err != nil {
+		panic(err)
+	}
+	_, edk, err := ed25519.GenerateKey(&detReader{r})
+	if err != nil {
+		panic(err)
+	}
+	if lpExtra.ed, err = stdx509.MarshalPKCS8PrivateKey(edk); err != nil {
 		panic(err)
 	}
 	ecert := pem.EncodeToMemory(&pem.Block{Type: "CERTIFICATE", Bytes: eder})
@@ -463,10 +498,83 @@ func runCase(line string) string {
 			return fmt.Sprintf("ok %d %d %d %d", rt, tried, rejected, same)
 		case "LD":
 			return runLoader(f)
+		case "LP":
+			return runLoaderPem(f)
 		}
 		return "BADCASE"
 	})
 	return id + " " + res
+}
+
+var lpExtra struct {
+	sec1, ed []byte
+	ecKey    *ecdsa.PrivateKey
+}
+
+// bytes of one block reference: c<i> certificate of material i, k<i> its key, s8 SEC 1 form of the ECDSA key of material 8,
+// e<i> password-protected PKCS#8 of SM2 material i, ed an Ed25519 PKCS#8 key, j junk
+func refBytes(ref string) []byte {
+	switch {
+	case ref == "j":
+		return []byte{0x30, 0x03, 0x02, 0x01, 0x07}
+	case ref == "ed":
+		return lpExtra.ed
+	case ref == "s8":
+		return lpExtra.sec1
+	}
+	i, _ := strconv.Atoi(ref[1:])
+	switch ref[0] {
+	case 'c':
+		b, _ := pem.Decode(materials[i].certPEM)
+		return b.Bytes
+	case 'k':
+		b, _ := pem.Decode(materials[i].keyPEM)
+		return b.Bytes
+	case 'e':
+		k, err := x509.ReadPrivateKeyFromPem(materials[i].keyPEM, nil)
+		if err != nil {
+			panic(err)
+		}
+		der, err := x509.MarshalSm2PrivateKey(k, []byte("c14"))
+		if err != nil {
+			panic(err)
+		}
+		return der
+	}
+	panic("bad block reference " + ref)
+}
+
+func buildPem(spec string) []byte {
+	if spec == "-" {
+		return []byte{}
+	}
+	var out []byte
+	for _, b := range strings.Split(spec, ",") {
+		f := strings.Split(b, "/")
+		out = append(out, pem.EncodeToMemory(&pem.Block{Type: strings.ReplaceAll(f[0], "_", " "), Bytes: refBytes(f[2])})...)
+	}
+	return out
+}
+
+func runLoaderPem(f []string) string {
+	b2i := func(err error) string {
+		if err == nil {
+			return "ok 1"
+		}
+		return "ok 0"
+	}
+	switch f[2] {
+	case "X509KeyPair":
+		_, err := gmtls.X509KeyPair(buildPem(f[3]), buildPem(f[4]))
+		return b2i(err)
+	case "GMX509KeyPairsSingle":
+		_, err := gmtls.GMX509KeyPairsSingle(buildPem(f[3]), buildPem(f[4]))
+		return b2i(err)
+	case "GMX509KeyPairs":
+		_, err := gmtls.GMX509KeyPairs(buildPem(f[3]), buildPem(f[4]), buildPem(f[5]), buildPem(f[6]))
+		return b2i(err)
+	}
+	return "BADCASE"
 }
 
 func runLoader(f []string) string {
@@ -882,6 +990,42 @@ func main() {
 				}
 			}
 		}
+	}
+	// ---- loaders on composed PEM input: which block is used
+	cb := func(i int) string { return "CERTIFICATE/cert=" + materials[i].cdesc + "/c" + strconv.Itoa(i) }
+	kb := func(label string, i int) string { return label + "/" + materials[i].kcontent() + "/k" + strconv.Itoa(i) }
+	junk := func(label string) string { return label + "/junk/j" }
+	type pf struct{ c, k string }
+	files := []pf{
+		{cb(5), kb("PRIVATE_KEY", 5)},
+		{cb(5) + "," + cb(0), kb("PRIVATE_KEY", 5)},                                     // leaf then chain
+		{cb(0) + "," + cb(5), kb("PRIVATE_KEY", 5)},                                     // leaf is not first
+		{junk("EC_PARAMETERS") + "," + cb(5), junk("EC_PARAMETERS") + "," + kb("EC_PRIVATE_KEY", 5)}, // PKCS#8 SM2 under another label
+		{cb(8), "EC_PRIVATE_KEY/sec1/s8"},                                               // SEC 1: no parser
+		{cb(8), kb("PRIVATE_KEY", 8)},
+		{cb(5), "ENCRYPTED_PRIVATE_KEY/enc/e5," + kb("PRIVATE_KEY", 5)},                  // first key block decides
+		{cb(5), "ENCRYPTED_PRIVATE_KEY/enc/e5"},
+		{cb(5), kb("PRIVATE_KEY", 5) + "," + kb("PRIVATE_KEY", 0)},
+		{cb(0), kb("PRIVATE_KEY", 5) + "," + kb("PRIVATE_KEY", 0)},
+		{cb(5), cb(5)},                                                                  // certificate given as key
+		{kb("PRIVATE_KEY", 5), kb("PRIVATE_KEY", 5)},                                    // key given as certificate
+		{"-", kb("PRIVATE_KEY", 5)}, {cb(5), "-"},
+		{cb(5), "PRIVATE_KEY/p8other/ed"},
+		{cb(3), kb("RSA_PRIVATE_KEY", 3)}, {cb(3), kb("PRIVATE_KEY", 4)},
+		{cb(5), junk("PUBLIC_KEY") + "," + kb("PRIVATE_KEY", 5)},
+		{cb(5), kb("PUBLIC_KEY", 5)},                                                    // right bytes, label not a private key
+		{cb(6), kb("SM2_PRIVATE_KEY", 6)}, {cb(7), kb("PRIVATE_KEY", 12)}, {cb(5), kb("PRIVATE_KEY", 12)},
+		{junk("CERTIFICATE") + "," + cb(5), kb("PRIVATE_KEY", 5)},                        // first CERTIFICATE block does not parse
+	}
+	for _, ld := range []string{"X509KeyPair", "GMX509KeyPairsSingle"} {
+		for _, x := range files {
+			emit("LP", ld, x.c, x.k)
+		}
+	}
+	enc := pf{cb(1), kb("PRIVATE_KEY", 1)}
+	for _, x := range files {
+		emit("LP", "GMX509KeyPairs", x.c, x.k, enc.c, enc.k)
+		emit("LP", "GMX509KeyPairs", cb(0), kb("PRIVATE_KEY", 0), x.c, x.k)
 	}
 	out.Close()
 }
